@@ -252,7 +252,50 @@ def count_lines(path):
     return n
 
 
+CHUNK = 100000
+
+
 def validate_trace(trace_module, events_path, workdir, tag, timeout=1800, constants=None, invariants=()):
+    """Cut long traces into chunks of at most CHUNK events (stateful traces only at "reset" events) and
+    validate the chunks with several TLC processes; indices are reported relative to the whole file."""
+    n = count_lines(events_path)
+    if n <= CHUNK:
+        return validate_trace_one(trace_module, events_path, workdir, tag, timeout, constants, invariants)
+    from concurrent.futures import ThreadPoolExecutor
+    chunks, cur, cur_n, start = [], None, 0, 1
+    idx = 0
+    with open(events_path) as f:
+        for i, line in enumerate(f, 1):
+            boundary = cur is None or (cur_n >= CHUNK and (trace_module in ("Trace_Stateless", "Trace_Features") or '"ev":"reset"' in line.replace(" ", "")
+                                                           or '"ev":"begin"' in line.replace(" ", "")))
+            if boundary:
+                if cur is not None:
+                    cur.close()
+                path = "%s.part%d" % (events_path, len(chunks))
+                chunks.append((path, i))
+                cur = open(path, "w")
+                cur_n = 0
+            cur.write(line)
+            cur_n += 1
+    if cur is not None:
+        cur.close()
+
+    def one(args):
+        k, (path, first) = args
+        r = validate_trace_one(trace_module, path, workdir, "%s-p%d" % (tag, k), timeout, constants, invariants)
+        for rej in r["rejected"]:
+            rej["index"] += first - 1
+        os.remove(path)
+        return r
+    with ThreadPoolExecutor(max_workers=6) as ex:
+        results = list(ex.map(one, enumerate(chunks)))
+    res = dict(events=n, accepted=sum(r["accepted"] for r in results), rejected=[x for r in results for x in r["rejected"]],
+               generated=sum(r["generated"] for r in results), distinct=sum(r["distinct"] for r in results),
+               wall=sum(r["wall"] for r in results), cmd=results[0]["cmd"] + "  (x%d chunks of <= %d events)" % (len(chunks), CHUNK))
+    return res
+
+
+def validate_trace_one(trace_module, events_path, workdir, tag, timeout=1800, constants=None, invariants=()):
     """impl -> spec: TLC consumes the recorded events with the trace specification.
 
     Returns dict(events, accepted, rejected=[{index, props, event}], ...)."""
